@@ -849,6 +849,7 @@ func allTypes() []*typeDesc {
 
 	_ = jid.JID{}
 	ts = append(ts, moreTypes()...)
+	ts = append(ts, extraTypes()...)
 	for _, t := range ts {
 		t.corpus = extraCorpus[t.name]
 	}
